@@ -145,12 +145,12 @@ def even_cluster_count(n, sz_cl):
 class _Scn(object):
     PROP = PROP
     ID = 'c20.gen'
-    TIERS = {'quick': 12000, 'thorough': 1000000}
+    TIERS = {'quick': 12000, 'thorough': 600000}
     nmax = 8
 
     def generate(self, sub):
         rnd = random.Random(sub)
-        g = rnd.choice(GENS)
+        g = rnd.choice(GENS + tuple(x for x in GENS if x != 'maketoeplitzCIJ'))  # the toeplitz rejection loop is the expensive one: half weight
         nmax = self.nmax
         if g == 'makerandCIJ_und':
             n = rnd.randint(2, nmax)
@@ -162,7 +162,7 @@ class _Scn(object):
             n = rnd.randint(3, nmax)
             p = {'n': n, 'k': rnd.randint(1, n * (n - 1))}
         elif g == 'maketoeplitzCIJ':
-            n = rnd.randint(4, nmax)
+            n = rnd.randint(4, min(nmax, 10))  # an infeasible (n, k, s) costs 10 001 n x n draws before the routine gives up
             p = {'n': n, 'k': rnd.randint(1, max(1, n * (n - 1) // 3)), 's': rnd.choice((0.5, 1.0, 2.0, 4.0))}
         elif g == 'makeevenCIJ':
             lv = rnd.randint(2, 3 if nmax <= 8 else 4)
